@@ -10,7 +10,8 @@ NEEDS = {"lib": ["dev", "release"], "cli": ["dev", "release"]}
 RULE = ("msg.hash(bytes) events for every length 0..1100, 10^k-1/10^k/10^k+1 (k<=6 quick, <=7 thorough), all byte values, invalid UTF-8, "
         "content that looks like the prefix or like digits, compared with own Keccak-256 of 0x19 'Ethereum Signed Message:\\n' "
         "decimal(len) m; CLI `hash message` and `sign message` through file and stdin (the signature must recover to the account "
-        "over that digest). distinct = distinct messages; non-trivial = digest compared")
+        "over that digest); thorough tier: sparse messages of 2^31-1 .. 2^32+5 bytes through the CLI against a streaming C Keccak-256. "
+        "distinct = distinct messages; non-trivial = digest compared")
 REQUIRED = (["len-0", "len-1-digit", "len-2-digits", "len-3-digits", "len-4-digits", "len-5-digits", "len-6-digits", "invalid-utf8",
              "looks-like-prefix", "looks-like-hex-or-json", "all-byte-values", "cli-hash-file", "cli-hash-stdin", "cli-sign-recovers", "len-9", "len-10", "len-99",
              "len-100", "len-999", "len-1000", "len-9999", "len-10000", "len-99999", "len-100000", "len-999999", "len-1000000", "len-1000001", "len-7-digits"])
@@ -70,6 +71,90 @@ def judge_cli(case, obs):
 
 
 JUDGES = {"lib": judge_lib, "cli": judge_cli}
+
+# Message lengths around 2^31 and 2^32 (thorough tier only): the decimal length in the envelope has 10 digits and no longer fits
+# 32 bits. The messages are sparse files (a few random pages, zeros elsewhere); the reference digest comes from the streaming C
+# Keccak-256 in tools/keccak256.c, which is first checked against the Python model. The tool needs about 2x the message size in
+# memory: when the machine cannot provide that, or the run ends in any way other than "exit 0 with a digest", the observation is
+# recorded as not completed - resource exhaustion is not what this property is about, so it is never an alarm.
+GIANT = [2**31 - 1, 2**31, 2**31 + 3, 2**32 - 1, 2**32, 2**32 + 5]
+
+
+def extra_phases(ctx, tier, seed):
+    import os
+    import subprocess
+    import random
+    from ..ref import keccak
+    from ..run import build, core
+    extra = {"buckets": {}, "evaluations": 0, "distinct": 0, "giant_messages": []}
+    viol = []
+    if tier != "thorough":
+        return extra, viol
+    tool = build.build_keccak_tool()
+    rng = random.Random(seed * 7919 + 10)
+    # trust the C reference only after it agrees with the Python model, with and without a prefix, across block boundaries
+    d = os.path.join(ctx.run_dir, "giant")
+    os.makedirs(d, exist_ok=True)
+    small = os.path.join(d, "small")
+    for n in (0, 1, 135, 136, 137, 271, 272, 273, 5000, 200001):
+        data = rand_bytes(rng, n)
+        with open(small, "wb") as f:
+            f.write(data)
+        pre = rand_bytes(rng, rng.randrange(0, 40))
+        got = subprocess.run([tool, "-p", pre.hex(), small], stdout=subprocess.PIPE, check=True).stdout.decode().strip()
+        if got != keccak.keccak256(pre + data).hex():
+            raise core.HarnessError("C Keccak-256 reference disagrees with the Python model on %d bytes" % n)
+    os.remove(small)
+    cli = ctx.cli("release").path
+    for n in GIANT:
+        avail = 0
+        for line in open("/proc/meminfo"):
+            if line.startswith("MemAvailable:"):
+                avail = int(line.split()[1]) * 1024
+        rec = {"length": n}
+        extra["giant_messages"].append(rec)
+        if avail < 3 * n + (4 << 30):
+            rec["outcome"] = "skipped: %d MiB available" % (avail >> 20)
+            extra["buckets"]["giant-skipped-low-memory"] = extra["buckets"].get("giant-skipped-low-memory", 0) + 1
+            continue
+        path = os.path.join(d, "m%d" % n)
+        try:
+            with open(path, "wb") as f:
+                f.truncate(n)
+                for off in [0, n - 4096, n // 2] + [rng.randrange(0, n - 4096) for _ in range(5)] + [2**31 - 8, 2**32 - 8]:
+                    if 0 <= off <= n - 16:
+                        f.seek(off)
+                        f.write(rand_bytes(rng, min(4096, n - off)))
+            prefix = b"\x19Ethereum Signed Message:\n" + str(n).encode()
+            want = subprocess.run([tool, "-p", prefix.hex(), path], stdout=subprocess.PIPE, check=True).stdout.decode().strip()
+            try:
+                p = subprocess.run([cli, "hash", "message", path], stdout=subprocess.PIPE, stderr=subprocess.PIPE, timeout=1800,
+                                   env={"PATH": "/usr/bin:/bin", "RUST_BACKTRACE": "0"}, cwd=d, preexec_fn=core.child_setup(None, 3600))
+            except subprocess.TimeoutExpired:
+                rec["outcome"] = "not completed: wall-clock watchdog"
+                extra["buckets"]["giant-not-completed"] = extra["buckets"].get("giant-not-completed", 0) + 1
+                continue
+            out = p.stdout.decode("utf-8", "replace").strip()
+            if p.returncode != 0 or len(out) != 66:
+                rec["outcome"] = "not completed: exit %s %s" % (p.returncode, p.stderr[-200:].decode("utf-8", "replace"))
+                extra["buckets"]["giant-not-completed"] = extra["buckets"].get("giant-not-completed", 0) + 1
+                continue
+            extra["evaluations"] += 1
+            extra["distinct"] += 1
+            rec["digest"] = out
+            rec["outcome"] = "compared"
+            b = "giant-len-%s" % ("<2^32" if n < 2**32 else ">=2^32")
+            extra["buckets"][b] = extra["buckets"].get(b, 0) + 1
+            if out != "0x" + want:
+                rec["outcome"] = "MISMATCH"
+                viol.append({"sig": "C10/cli-hash/giant-digest-mismatch", "msg": "`hash message` of a %d-byte message printed %s, streaming reference 0x%s" % (n, out, want),
+                             "case": {"giant": n, "note": "sparse file of that length; see monitor/props/c10.py extra_phases"}, "obs": [{"stdout": out}]})
+        finally:
+            try:
+                os.remove(path)
+            except OSError:
+                pass
+    return extra, viol
 
 
 def shards(tier, seed):
